@@ -8,6 +8,7 @@ import (
 	"bytes"
 	"context"
 	"crypto/ecdsa"
+	"crypto/elliptic"
 	"crypto/sha256"
 	"net/http"
 	"time"
@@ -26,7 +27,7 @@ func Harness_C06_sth() {
 	be, rl := &envBackend{}, &envReqLog{}
 	li := envLogInfo(be, rl)
 	sig := vBytes("sig", 1+vChoice("sig-len", 3))
-	sg := &envSigner{pub: &ecdsa.PublicKey{}, sig: sig}
+	sg := &envSigner{pub: &ecdsa.PublicKey{Curve: elliptic.P256()}, sig: sig}
 	li.signer = sg
 	size, tsNanos := vU64("tree-size"), vU64("ts-nanos")
 	root := vBytes("root", 32)
@@ -55,7 +56,7 @@ func Harness_C06_sth() {
 //verif:opt maxpaths=2000 reach=hit,miss
 func Harness_C06_sigcache() {
 	sig := vBytes("fresh-sig", 2)
-	sg := &envSigner{pub: &ecdsa.PublicKey{}, sig: sig}
+	sg := &envSigner{pub: &ecdsa.PublicKey{Curve: elliptic.P256()}, sig: sig}
 	var cache SignatureCache
 	cachedLen := []int{0, 49, 50, 51}[vChoice("cached-len", 4)]
 	cachedIn := vBytes("cached-input", cachedLen)
@@ -92,7 +93,7 @@ func Harness_C06_sigcache() {
 func Harness_C06_leafhash() {
 	be, rl := &envBackend{}, &envReqLog{}
 	li := envLogInfo(be, rl)
-	li.signer = &envSigner{pub: &ecdsa.PublicKey{}, sig: vBytes("sig", 2)}
+	li.signer = &envSigner{pub: &ecdsa.PublicKey{Curve: elliptic.P256()}, sig: vBytes("sig", 2)}
 	sec := vI64("clock.sec")
 	vAssume(sec >= 0 && sec <= 4102444800)
 	li.TimeSource = envTime{time.Unix(sec, 0)}
@@ -136,7 +137,7 @@ func Harness_C06_leafhash() {
 func Harness_C06_sthHistory() {
 	be, rl := &envBackend{}, &envReqLog{}
 	li := envLogInfo(be, rl)
-	sg := &envSigner{pub: &ecdsa.PublicKey{}, sig: []byte{0x30, 0x01}}
+	sg := &envSigner{pub: &ecdsa.PublicKey{Curve: elliptic.P256()}, sig: []byte{0x30, 0x01}}
 	li.signer = sg
 	size1, ts1 := vU64("size1"), vU64("ts1")
 	root1 := vBytes("root1", 32)
